@@ -9,7 +9,9 @@
 // (F) sibling types (siblings.go): two named types with one underlying type, and that type written out,
 //     used by different calls of one package - helpers are looked up by assignability;
 // (G) directory layouts (layouts.go): external test packages beside the package, in-package test files,
-//     sub-packages importing each other, `./...` and explicit package lists.
+//     sub-packages importing each other, `./...` and explicit package lists;
+// (H) file and directory names that resemble derived.gen.go (names.go);
+// (I) importers of values whose types are inferred from another package's derived functions (deps.go).
 package c01
 
 import (
@@ -73,6 +75,10 @@ func Run(cfg hx.Config) (*hx.Meta, error) {
 				siblings(cfg, meta)
 			case "layouts":
 				layouts(cfg, meta)
+			case "names":
+				names(cfg, meta)
+			case "deps":
+				deps(cfg, meta)
 			case "callsites":
 				callsites(cfg, meta, cat, r)
 			}
@@ -111,6 +117,8 @@ func Run(cfg hx.Config) (*hx.Meta, error) {
 	functional(cfg, meta, cat)
 	siblings(cfg, meta)
 	layouts(cfg, meta)
+	names(cfg, meta)
+	deps(cfg, meta)
 	if err := inproc(cfg, meta, r); err != nil {
 		return nil, err
 	}
